@@ -21,6 +21,7 @@ package grammar
 //@   requires allCacheOK() && wfGOpts(opts)
 //@   ensures (err == nil) == parseAccepts(b, gBudget(opts))
 //@   ensures err == nil ==> val != nil && is[Expression](val) && wf(val) && val == parseTree(b)
+//@   ensures typed: err == nil ==> val != nil && is[Expression](val) && wfS(val)
 //@   ensures allCacheOK()
 //@   fresh
 //@   assigns grammar.UnaryExpression.Operator, grammar.UnaryExpression.Operand, grammar.BinaryExpression.Left, grammar.BinaryExpression.Operator, grammar.BinaryExpression.Right, grammar.MatchExpression.Operator, grammar.MatchExpression.Value, grammar.Selector.Type, grammar.Selector.Path, grammar.MatchValue.Raw, grammar.MatchValue.Converted, grammar.CollectionExpression.Op, grammar.CollectionExpression.Inner, grammar.CollectionNameBinding.Mode, grammar.CollectionNameBinding.Default, grammar.CollectionNameBinding.Index, grammar.CollectionNameBinding.Value
@@ -525,3 +526,106 @@ package grammar
 //@   requires p != nil && g != nil && p.errs != nil && p.Stats != nil && p.Stats.ExprCnt <= p.maxExprCnt
 //@   ensures_recovered[C10,C11] reported: val == nil && err != nil
 //@   may_panic
+
+// ---------------------------------------------------------------------------
+// Rule contracts: the type of the value every successful match of a rule of
+// the table `var g` hands to its caller (checked by bxv's grammar typing
+// engine against the table as it stands in grammar.go and the contracts of
+// the action functions above; see /verif/cmd/bxv/typing.go). The optional
+// second variable is the number of input bytes the match consumed. Rules
+// without a contract promise nothing (white space, EOF, the number and string
+// character rules, whose values are never used).
+
+//@ rule Input(v)
+//@   yields[C10] v != nil && is[Expression](v) && wfS(v)
+
+//@ rule OrExpression(v)
+//@   yields[C10] v != nil && is[Expression](v) && wfS(v)
+
+//@ rule AndExpression(v)
+//@   yields[C10] v != nil && is[Expression](v) && wfS(v)
+
+//@ rule NotExpression(v)
+//@   yields[C10] v != nil && is[Expression](v) && wfS(v)
+
+//@ rule CollectionExpression(v)
+//@   yields[C10] v != nil && is[Expression](v) && wfS(v)
+
+//@ rule ParenthesizedExpression(v)
+//@   yields[C10] v != nil && is[Expression](v) && wfS(v)
+
+//@ rule MatchExpression(v)
+//@   yields[C10] v != nil && is[Expression](v) && wfS(v)
+
+//@ rule MatchSelectorOpValue(v)
+//@   yields[C10] v != nil && is[Expression](v) && wfS(v)
+
+//@ rule MatchSelectorOp(v)
+//@   yields[C10] v != nil && is[Expression](v) && wfS(v)
+
+//@ rule MatchValueOpSelector(v)
+//@   yields[C10] v != nil && is[Expression](v) && wfS(v)
+
+//@ rule CollectionIdentifiers(v)
+//@   yields[C10] is[CollectionNameBinding](v)
+
+//@ rule CollectionOpAny(v)
+//@   yields[C10] is[CollectionOperator](v)
+
+//@ rule CollectionOpAll(v)
+//@   yields[C10] is[CollectionOperator](v)
+
+//@ rule MatchEqual(v)
+//@   yields[C10] is[MatchOperator](v) && unbox[MatchOperator](v) == MatchEqual
+
+//@ rule MatchNotEqual(v)
+//@   yields[C10] is[MatchOperator](v) && unbox[MatchOperator](v) == MatchNotEqual
+
+//@ rule MatchIsEmpty(v)
+//@   yields[C10] is[MatchOperator](v) && unbox[MatchOperator](v) == MatchIsEmpty
+
+//@ rule MatchIsNotEmpty(v)
+//@   yields[C10] is[MatchOperator](v) && unbox[MatchOperator](v) == MatchIsNotEmpty
+
+//@ rule MatchIn(v)
+//@   yields[C10] is[MatchOperator](v) && unbox[MatchOperator](v) == MatchIn
+
+//@ rule MatchNotIn(v)
+//@   yields[C10] is[MatchOperator](v) && unbox[MatchOperator](v) == MatchNotIn
+
+//@ rule MatchContains(v)
+//@   yields[C10] is[MatchOperator](v) && unbox[MatchOperator](v) == MatchIn
+
+//@ rule MatchNotContains(v)
+//@   yields[C10] is[MatchOperator](v) && unbox[MatchOperator](v) == MatchNotIn
+
+//@ rule MatchMatches(v)
+//@   yields[C10] is[MatchOperator](v) && unbox[MatchOperator](v) == MatchMatches
+
+//@ rule MatchNotMatches(v)
+//@   yields[C10] is[MatchOperator](v) && unbox[MatchOperator](v) == MatchNotMatches
+
+//@ rule Selector(v, n)
+//@   yields[C10] is[Selector](v)
+//@   yields[C10] unbox[Selector](v).Type == SelectorTypeJsonPointer ==> n >= 2
+
+//@ rule JsonPointerSegment(v)
+//@   yields[C10] is[string](v)
+
+//@ rule Identifier(v)
+//@   yields[C10] is[string](v)
+
+//@ rule SelectorOrIndex(v)
+//@   yields[C10] is[string](v)
+
+//@ rule IndexExpression(v)
+//@   yields[C10] is[string](v)
+
+//@ rule NumberLiteral(v)
+//@   yields[C10] is[string](v)
+
+//@ rule StringLiteral(v)
+//@   yields[C10] is[string](v)
+
+//@ rule Value(v)
+//@   yields[C10] is[*MatchValue](v) && unbox[*MatchValue](v) != nil
